@@ -368,6 +368,8 @@ def check_conn_sampled(rep, conn, rng, n_pairs, cap):
         return
     for k in range(n_pairs):
         s = cells[int(rng.integers(len(cells)))]
+        if k == 0 and max(R, C) >= 128:
+            s = (R - 1, C - 1)  # a coordinate beyond the int8 range (coordinates are annotated Int8; nothing may narrow them silently)
         if k % 3 == 2:
             e = cells[int(rng.integers(len(cells)))]  # any cell (targeted mazes need no path)
         else:
@@ -424,6 +426,9 @@ def tasks_for(tier, rng):
         for mode in ("0.3", "0.5", "0.7", "0.9", "tree", "tree+"):
             for _ in range(reps):
                 tasks.append(("smp", R, C, int(rng.integers(2**31)), mode, n_pairs, cap))
+    # a dimension above 127: row / column indices that do not fit a signed byte
+    for R, C in ((130, 2), (2, 131)):
+        tasks.append(("smp", R, C, int(rng.integers(2**31)), "tree", 3, 1))
     tasks.sort(key=lambda t: -(t[1] * t[2]))  # large grids first, so the pool does not finish on a long task
     return tasks
 
@@ -438,7 +443,7 @@ def run(tier, seed):
         + ("all 4096 on 3x3" if tier == "thorough" else "a seeded sample of ~150 of the 4096 on 3x3")
         + "; seeded structures (bond probability 0.3/0.5/0.7/0.9, random spanning trees, trees plus extra bonds) on grids up to 12x12, square and "
         "oblong; per structure: LatticeMaze, TargetedLatticeMaze for every ordered start != end pair, SolvedMaze for every shortest path of every "
-        "connected pair (larger grids: seeded pairs, all shortest paths up to a cap, else a random subset); per maze the three accepted "
+        "connected pair (larger grids: seeded pairs; two spanning trees on 130x2 and 2x131 with an endpoint at index > 127, all shortest paths up to a cap, else a random subset); per maze the three accepted "
         "show_endpoints/show_solution combinations, the rejected one, as_ascii, from_pixels, from_ascii, bw image and inverse; one evaluation = "
         "one maze; distinct by (kind, shape, bits, start, end, solution); non-trivial = at least one connection",
         exhaustive=False,
